@@ -144,6 +144,23 @@ def fmtVerdict (v : Verdict) : String :=
 
 def first (xs : List (Option String)) : Option String := xs.findSome? id
 
+/-- Outside the float range of the squared quantities: some coordinate has magnitude ≥ 2^499 or is
+non-zero below 2^-499 (differences can then leave (2^-500, 2^500), `distPointToSegment` rescales or
+sees ±Inf, `findIntersection` overflows).  The exact model is not tied there (`Ties.InRange`); such
+cases are classed `-outofrange`: the answer must still come back (termination, no panic), leave the
+input alone and be a subsequence that keeps the endpoints; tolerance, simplicity and the model
+comparison are not judged. -/
+def outOfRange (ps : List Path) : Bool :=
+  let big : Rat := (2 : Rat) ^ 499
+  let small : Rat := 1 / big
+  ps.any fun l => l.any fun p =>
+    let ax := if p.x < 0 then -p.x else p.x
+    let ay := if p.y < 0 then -p.y else p.y
+    ax ≥ big || ay ≥ big || (ax != 0 && ax ≤ small) || (ay != 0 && ay ≤ small)
+
+/-- a tolerance that every distance between representable points satisfies -/
+def hugeTol : Rat := (2 : Rat) ^ 1100
+
 /-- swap x and y of every vertex (the in-place change the harness makes before its second call) -/
 def swapPt (p : Pt UInt64) : Pt UInt64 := ⟨p.y, p.x⟩
 def swapGeom : BGeom → BGeom
@@ -161,18 +178,20 @@ def judgePair (base : String) (tol : Rat) (tolF : Float) (g og : BGeom) (inputSp
     match pathRat l, pathRat o with
     | some lr, some orr =>
       let cv := mkCurve l lr
-      let w := walkCurve tol tolF cv []
+      let oor := outOfRange [lr]
+      let w := if oor then ({} : Walk) else walkCurve tol tolF cv []
       -- `Simple` is quadratic in the number of vertices: not evaluated for long (smooth) inputs
-      let simpleIn := lr.length ≤ 260 && Spec.Simple lr
+      let simpleIn := !oor && lr.length ≤ 260 && Spec.Simple lr
       let gp := simpleIn && lr.length ≤ 64 && Spec.GenPos lr
       let kind := if gp then "-simplegp" else if simpleIn then "-simple" else ""
       let dropped := if orr.length < lr.length then "-drop" else ""
       let long := if lr.length > 64 && orr.length * 65 < lr.length then "-longrun" else ""
       let bo := if w.backoffs > 0 then "-bo" else ""
-      let tie := w.tie
-      let cls := s!"{base}{kind}{dropped}{long}{bo}{if onGrid lr then "" else "-nongrid"}{if tie then "-neartie" else ""}"
+      let tie := w.tie || oor
+      let cls := if oor then s!"{base}-outofrange" else
+        s!"{base}{kind}{dropped}{long}{bo}{if onGrid lr then "" else "-nongrid"}{if tie then "-neartie" else ""}"
       let simpleSpec := if gp && !Spec.Simple orr then some "simple-input-in-general-position-but-output-self-intersects" else none
-      let sp := first [inputSpec, specCurve lr orr tol, simpleSpec]
+      let sp := first [inputSpec, specCurve lr orr (if oor then hugeTol else tol), simpleSpec]
       -- The walk iterates `Model.jBody` exactly as `Model.jLoop` does, so for three or more
       -- vertices its final `out` is the model's answer; `simplifyLS` itself is run as well on
       -- inputs of up to 150 vertices (and always for fewer than three) and must agree.
@@ -195,9 +214,11 @@ def judgePair (base : String) (tol : Rat) (tolF : Float) (g og : BGeom) (inputSp
   | .multiLineString ml, .multiLineString mo =>
     match pathsRat ml, pathsRat mo with
     | some mr, some mor =>
-      let ws := (ml.zip mr).map fun (b, r) => walkCurve tol tolF (mkCurve b r) []
-      let tie := ws.any (·.tie)
-      let cls := s!"{base}-{mr.length}{if tie then "-neartie" else ""}"
+      let oor := outOfRange mr
+      let ws := if oor then [] else (ml.zip mr).map fun (b, r) => walkCurve tol tolF (mkCurve b r) []
+      let tie := ws.any (·.tie) || oor
+      let tol := if oor then hugeTol else tol
+      let cls := if oor then s!"{base}-outofrange" else s!"{base}-{mr.length}{if tie then "-neartie" else ""}"
       let memSpec := match members with
         | some (.multiLineString mm) => if mm == mo then none else some "members-not-simplified-independently"
         | _ => if checkMembers then some "members-missing" else none
@@ -211,10 +232,12 @@ def judgePair (base : String) (tol : Rat) (tolF : Float) (g og : BGeom) (inputSp
   | .polygon p, .polygon po =>
     match pathsRat p, pathsRat po with
     | some pr, some por =>
-      let ws := (p.zip pr).map fun (b, r) => walkCurve tol tolF (mkCurve b r) pr
-      let tie := ws.any (·.tie)
+      let oor := outOfRange pr
+      let ws := if oor then [] else (p.zip pr).map fun (b, r) => walkCurve tol tolF (mkCurve b r) pr
+      let tie := ws.any (·.tie) || oor
+      let tol := if oor then hugeTol else tol
       let bo := if ws.any (·.backoffs > 0) then "-bo" else ""
-      let cls := s!"{base}-{min pr.length 4}{bo}{if tie then "-neartie" else ""}"
+      let cls := if oor then s!"{base}-outofrange" else s!"{base}-{min pr.length 4}{bo}{if tie then "-neartie" else ""}"
       let sp := first [inputSpec, zipSpec pr por tol]
       let df := if tie then none else
         match simplifyPG pr tol with
@@ -225,9 +248,11 @@ def judgePair (base : String) (tol : Rat) (tolF : Float) (g og : BGeom) (inputSp
   | .multiPolygon mp, .multiPolygon mpo =>
     match pathssRat mp, pathssRat mpo with
     | some mr, some mor =>
-      let ws := (mp.zip mr).flatMap fun (pb, pr) => (pb.zip pr).map fun (b, r) => walkCurve tol tolF (mkCurve b r) pr
-      let tie := ws.any (·.tie)
-      let cls := s!"{base}-{mr.length}{if tie then "-neartie" else ""}"
+      let oor := mr.any outOfRange
+      let ws := if oor then [] else (mp.zip mr).flatMap fun (pb, pr) => (pb.zip pr).map fun (b, r) => walkCurve tol tolF (mkCurve b r) pr
+      let tie := ws.any (·.tie) || oor
+      let tol := if oor then hugeTol else tol
+      let cls := if oor then s!"{base}-outofrange" else s!"{base}-{mr.length}{if tie then "-neartie" else ""}"
       let memSpec := match members with
         | some (.multiPolygon mm) => if mm == mpo then none else some "members-not-simplified-independently"
         | _ => if checkMembers then some "members-missing" else none
@@ -259,7 +284,7 @@ def judgeLine (line : String) : String :=
         match rhs with
         | "timeout" :: _ => s!"SPEC {base} does-not-terminate"
         | "panic" :: m => s!"SPEC {base} panics {" ".intercalate m}"
-        | "crash" :: m => s!"SPEC {base} crashes {" ".intercalate m}"
+        | "crash" :: m => s!"SPEC {base} does-not-return-process-crashed {" ".intercalate m}"
         | "ok" :: rest =>
           match Proto.pGeom 4 rest with
           | none => s!"DIFF {base} unparsable-answer"
